@@ -571,10 +571,11 @@ def rule_u2f(ctx):
   w = sym.Walker(repo, f)
   w.run()
   n = P("param", "n")
-  basis = [e for e in w.events if e.kind == "assign" and e.data["name"] == "basis"]
+  # the basis is whatever is handed to the sub-problem as its fifth argument (built by a comprehension or by an append loop)
+  basis = [e for e in w.events if e.kind == "call" and e.data["name"].endswith(":Cr50U2fSubProblem") and len(e.data["args"]) >= 5 and isinstance(e.data["args"][4], Poly)]
   ok = bool(basis)
   for e in basis:
-    v = as_poly(e.data["value"]).as_atom()
+    v = as_poly(e.data["args"][4]).as_atom()
     good = False
     if v is not None and v.kind == "map":
       elt, bv, src = v.args
@@ -929,7 +930,7 @@ def rule_u2f_pairs(ctx):
       continue
     for which, off in ((0, Poly.const(0)), (1, words)):
       a_ = as_poly(v.items[which]).as_atom()
-      s_ = as_poly(a_.args[0]).as_atom() if a_ is not None and a_.kind == "abs" else None
+      s_ = sym.resolve_sums(w, as_poly(a_.args[0])).as_atom() if a_ is not None and a_.kind == "abs" else None      # an accumulator loop reads as its sum
       m_ = as_poly(s_.args[0]).as_atom() if s_ is not None and s_.kind == "sum" else None
       if m_ is None or m_.kind != "map" or len(m_.args) != 3:
         probs.append("k%d is not |sum(...)| over the basis" % (which + 1))
@@ -1046,6 +1047,41 @@ def _hnp_spec(m, W, n, A, B, prefix, generalized):
   return g
 
 
+def _pc_admits(st, var, value):
+  """Can the path of state st be taken when `var` has the integer `value`?  Three-valued evaluation of its path condition: comparisons between var and
+  a number, or between two numbers, are decided; everything else is unknown (= does not exclude the path)."""
+  def ev(c):
+    if not isinstance(c, tuple) or not c:
+      return None
+    if c[0] == "const":
+      return bool(c[1])
+    if c[0] == "not":
+      r = ev(c[1])
+      return None if r is None else (not r)
+    if c[0] in ("and", "or"):
+      rs = [ev(x) for x in c[1]]
+      if c[0] == "and":
+        return False if any(r is False for r in rs) else (True if all(r is True for r in rs) else None)
+      return True if any(r is True for r in rs) else (False if all(r is False for r in rs) else None)
+    if c[0] == "cmp" and len(c) == 4:
+      def num(x):
+        if isinstance(x, Poly):
+          return value if x == var else x.as_int()
+        if isinstance(x, int) and not isinstance(x, bool):
+          return x
+        return None
+      l, r = num(c[2]), num(c[3])
+      if l is None or r is None:
+        return None
+      return {"Eq": l == r, "NotEq": l != r, "Lt": l < r, "LtE": l <= r, "Gt": l > r, "GtE": l >= r, "Is": l == r, "IsNot": l != r}.get(c[1])
+    return None
+  for c, pol, node in st.pc:
+    r = ev(c)
+    if r is not None and r != pol:
+      return False
+  return True
+
+
 def _div_atom(p, a):
   """p / a when every term of p carries the atom a, else None."""
   from fractions import Fraction
@@ -1086,15 +1122,15 @@ def rule_lattice(ctx):
     for kind, val, st in w.terminals:
       if kind != "return" or not wtable.feasible(st):
         continue
-      eqs = []
-      for fc in st.facts:
-        if fc[0] == "cmp" and fc[1] == "Eq" and len(fc) == 4:
-          for x_, y_ in ((fc[2], fc[3]), (fc[3], fc[2])):
-            if isinstance(x_, Poly) and x_ == pbias and isinstance(y_, Poly) and y_.as_int() is not None:
-              eqs.append(("cmp", "Eq", x_, y_))
-      if len({as_poly(fc[3]).as_int() for fc in eqs}) != 1 or as_poly(eqs[0][3]).as_int() not in byval:
-        fams.setdefault("?", []).append("a lattice is returned on a path that does not fix the kind of bias")
+      # the kinds of bias this path is taken for: evaluate its path condition for each of the four enum values (merged conditions such as
+      # `bias == A or bias == B` carry no single equality fact, but they do exclude the other values)
+      fits = [v_ for v_ in byval if _pc_admits(st, pbias, v_)]
+      if not fits:
+        continue          # a path the walker could not prune (contradictory tests on the kind of bias)
+      if len(fits) != 1:
+        fams.setdefault("?", []).append("a lattice is returned on a path that does not fix the kind of bias (admits %s)" % [byval[v_] for v_ in fits])
         continue
+      eqs = [("cmp", "Eq", pbias, Poly.const(fits[0]))]
       fam = byval[as_poly(eqs[0][3]).as_int()]
       npaths[fam] += 1
       w_none = any(fc[0] == "cmp" and fc[1] == "Is" and isinstance(fc[2], Poly) and fc[2] == pw for fc in st.facts)
